@@ -282,9 +282,40 @@ def rule_sect(ctx) -> None:
         back = acfg.reach([n for n, _ in dels], include_start=True)
         ctx.check(not any(n in back for n, _ in sets), "C07.SECT", f"{dec.qual}/dels-last", dec.loc(), "deletions are applied after all sets",
                   "a _set_path is reachable after deletions started")
-    dc = [x for x in walk_no_defs(dec.node) if isinstance(x, ast.Call) and dotted(x.func) in ("copy.deepcopy", "deepcopy")]
-    ctx.check(bool(dc), "C07.SECT", f"{dec.qual}/deepcopy-base", dec.loc(), "the base is deep-copied before patching (caller's baseline is not aliased)",
-              "apply_delta patches the caller's base object in place")
+    # what is patched is a TREE copy of the base: not the caller's object, not a shallow copy, and not copy.deepcopy either -
+    # deepcopy keeps sharing, so a dict that sits at two places of the base (the loader leaves the same GEL dict under
+    # state["graph"] and state["gel"]) is one object in the copy and a path written below one place appears below the other
+    rdd = ctx.rd(dec)
+    patched = {c.args[0].id for _, c in sets + dels if c.args and isinstance(c.args[0], ast.Name)}
+    defs = [d for nm in patched for d in rdd.all_defs if d.name == nm and d.kind != "mutate"]
+    why = None
+    if not defs:
+        why = "the patched object has no local definition (the caller's base is patched in place)"
+    for d in defs:
+        v = d.value
+        while isinstance(v, ast.BoolOp):
+            v = v.values[0]
+        inner = v
+        if not isinstance(inner, ast.Call):
+            why = why or f"`{src(d.value)[:40] if d.value is not None else d.kind}` is not a copy"
+            continue
+        dn = dotted(inner.func) or ""
+        if dn in ("copy.deepcopy", "deepcopy"):
+            why = why or f"`{src(inner)[:40]}` keeps sharing inside the copy (one object at two places of the base stays one object)"
+        elif dn in ("copy.copy", "dict", "copy") or (isinstance(inner.func, ast.Attribute) and inner.func.attr == "copy"):
+            why = why or f"`{src(inner)[:40]}` is a shallow copy: nested containers of the caller's base are patched in place"
+        elif dn in ("json.loads",):
+            pass
+        else:
+            r = ctx.prog.callee(dec, inner)
+            cal = ctx.prog.funcs.get(r[1]) if r and r[0] == "func" else None
+            rec = cal is not None and any(isinstance(y, ast.Call) and isinstance(y.func, ast.Name) and y.func.id == cal.name for y in walk_no_defs(cal.node)) \
+                and any(isinstance(y, (ast.DictComp, ast.Dict)) for y in walk_no_defs(cal.node))
+            if not rec:
+                why = why or f"`{src(inner)[:40]}` is not a recursive rebuild of the base"
+    ctx.check(why is None, "C07.SECT", f"{dec.qual}/patches-a-tree-copy", dec.loc(), "the delta is applied to a copy of the base in which every place holds an object of its own",
+              f"apply_delta patches something else than a tree copy of the base: {why} - apply_delta(base, compute_delta(base, curr)) != curr for a base in which one dict sits at two places, "
+              "or the caller's baseline is edited")
 
 
 # ------------------------------------------------------------------ STATE
@@ -667,6 +698,33 @@ def rule_usable_baseline(ctx) -> None:
                           f"`{src(c)[:60]}` uses a baseline that did not pass the usability check (from _read_baseline_payload, and not None): a truncated or corrupt baseline is diffed against / "
                           "patched, giving a wrongly reconstructed state or an unreadable delta instead of the full-snapshot fallback")
     ctx.floor("C07.STATE", "uses of a baseline payload (apply_delta / compute_delta)", n_uses, 4)
+    # the OTHER operand: what is applied is a delta object.  A delta file whose body is not an object (torn after a falsy token,
+    # `null`) must count as unusable - `apply_delta(base, payload or {})` reads it as "no changes" and hands the BASELINE back
+    # as the snapshot of the later version.
+    n_ops = 0
+    for q in (SNAP + ":read_snapshot", SNAP + ":load_latest_snapshot"):
+        fn = ctx.func(q)
+        cfg = ctx.cfg(fn)
+        rd = ctx.rd(fn)
+        for n in cfg.nodes:
+            for c in node_calls(n):
+                if call_tail(c) != "apply_delta" or len(c.args) < 2:
+                    continue
+                n_ops += 1
+                a1 = c.args[1]
+                coerced = isinstance(a1, ast.BoolOp) and isinstance(a1.op, ast.Or)
+                nm = a1.id if isinstance(a1, ast.Name) else None
+                checked = False
+                if nm:
+                    sl = rd.slice([a1], n, control=True)
+                    tests = [t for t, _pol, _b in sl.ctrl] + [e for e, _ in sl.exprs]
+                    checked = any(isinstance(y, ast.Call) and dotted(y.func) == "isinstance" and len(y.args) == 2 and isinstance(y.args[0], ast.Name) and y.args[0].id == nm
+                                  and "dict" in src(y.args[1]) or (isinstance(y, ast.Call) and dotted(y.func) == "isinstance" and len(y.args) == 2 and "Mapping" in src(y.args[1]) and isinstance(y.args[0], ast.Name) and y.args[0].id == nm)
+                                  for t in tests for y in ast.walk(t))
+                ctx.check(checked and not coerced, "C07.STATE", ctx.okey(f"{fn.qual}/delta-operand-is-an-object"), fn.loc(c), f"`{src(a1)}` is applied only where it is known to be an object",
+                          f"`{src(c)[:70]}` applies whatever the delta file's body parsed to ({'a falsy body is read as `no changes`' if coerced else 'never tested to be an object'}): a damaged delta (body `null`, "
+                          "cut off after a falsy token) returns the baseline's payload as the snapshot of the later version - a state that version never had - instead of the full snapshot / absence")
+    ctx.floor("C07.STATE", "apply_delta sites of the readers", n_ops, 3)
     # the baseline is the version the delta was made from: the reader takes the expected etag and compares it with the
     # file's own header, and every caller passes it (a full snapshot of another version under the baseline's name - a
     # wrong backup restored - would otherwise be patched into a state that never existed)
@@ -692,6 +750,41 @@ def rule_usable_baseline(ctx) -> None:
                 ctx.check(len(x.args) + len(x.keywords) >= 2, "C07.STATE", ctx.okey(f"{fn.qual}/baseline-etag-passed"), fn.loc(x), f"`{src(x)[:60]}` names the version it expects",
                           f"`{src(x)[:60]}` does not say which version the baseline must be: a mislabelled baseline is patched")
     ctx.floor("C07.STATE", "baseline reads that name the expected version", n_calls, 4)
+    # ... and the CONTENT the delta was made from: version etags are small counters that start again with every fresh state, so
+    # two histories sharing a directory reuse them - the file under the baseline's name may be another history's snapshot of
+    # the same etag.  The writer records something computed from the baseline payload in the delta header, the baseline reader
+    # takes it and compares, and every reader of a delta passes it on from the header.
+    wa = ctx.func(SNAP + ":write_snapshot_auto")
+    rdw = ctx.rd(wa)
+    cfgw = ctx.cfg(wa)
+    base_names = set()
+    for n in cfgw.nodes:
+        for c in node_calls(n):
+            if call_tail(c) == "compute_delta" and c.args and isinstance(c.args[0], ast.Name):
+                base_names.add(c.args[0].id)
+    digest_keys = set()
+    for x in walk_no_defs(wa.node):
+        if isinstance(x, ast.Dict) and any(const_str(k) == "mode" and const_str(v) == "delta" for k, v in zip(x.keys, x.values)):
+            for k, v in zip(x.keys, x.values):
+                if const_str(k) and any(isinstance(y, ast.Name) and y.id in base_names for y in ast.walk(v)) and any(isinstance(y, ast.Call) for y in ast.walk(v)):
+                    digest_keys.add(const_str(k))
+    ctx.check(bool(digest_keys), "C07.STATE", f"{wa.qual}/delta-records-its-baseline-content", wa.loc(), f"the delta header records {sorted(digest_keys)} computed from the baseline payload",
+              "the delta header names its baseline by etag only: after another history (a fresh state starts again at etag 1) has overwritten the file of that name, the reader applies the delta to "
+              "a payload it was not made from and returns a state that never existed")
+    if digest_keys:
+        takes = any(isinstance(x, ast.Compare) and any(isinstance(y, ast.Name) and y.id in ps[2:] for y in ast.walk(x)) for x in walk_no_defs(br.node)) if len(ps) >= 3 else False
+        ctx.check(takes, "C07.STATE", f"{br.qual}/baseline-content-compared", br.loc(), "the baseline reader compares the recorded content digest with the file it read",
+                  "the baseline reader takes no content digest / never compares it: a baseline of the right etag but of another history is accepted")
+        for fn in ctx.prog.module(SNAP).funcs.values():
+            if fn.qual in (br.qual, wa.qual):
+                continue
+            for x in walk_no_defs(fn.node):
+                if isinstance(x, ast.Call) and call_tail(x) == "_read_baseline_payload" and len(x.args) + len(x.keywords) >= 2 \
+                        and not any(isinstance(y, ast.Return) and any(z is x for z in ast.walk(y)) for y in walk_no_defs(fn.node)):
+                    rest = list(x.args[2:]) + [k.value for k in x.keywords]
+                    passed = any(any(const_str(z) in digest_keys for z in ast.walk(a)) for a in rest)
+                    ctx.check(passed, "C07.STATE", ctx.okey(f"{fn.qual}/baseline-content-passed"), fn.loc(x), f"`{src(x)[:70]}` passes the delta header's {sorted(digest_keys)}",
+                              f"`{src(x)[:70]}` does not pass the delta header's {sorted(digest_keys)}: this reader applies the delta to whatever full snapshot of that etag the directory holds")
     # a file that holds only its header line is torn: the generic reader must not hand the header back as a body
     rh = ctx.func(SNAP + ":_read_header_payload")
     cfgh = ctx.cfg(rh)
